@@ -531,6 +531,46 @@ def check_row_order(scn):
     return len(a) * 2, any(x[0] == "drift" for x in a), None
 
 
+def check_row_order_large(scn):
+    """one large test batch (above typical block / chunk sizes), sorted vs shuffled: measured divergence must coincide"""
+    name, seed, rows = scn["det"], scn["seed"], scn["rows"]
+    rng = np.random.RandomState(seed)
+    ref = pd.DataFrame(rng.randn(400, 2), columns=["a", "b"])
+    big = rng.randn(rows, 2) * 1.3 + 0.4
+    big = big[np.argsort(big[:, 0])]                     # sorted by the first column: blocks differ systematically
+    shuffled = big[rng.permutation(rows)]
+    vals = []
+    for batch in (big, shuffled):
+        np.random.seed(seed)
+        if name == "KdqTreeBatch":
+            from menelaus.data_drift import KdqTreeBatch
+            det = KdqTreeBatch(bootstrap_samples=20, count_ubound=40)
+            det.set_reference(ref)
+            det.update(pd.DataFrame(batch, columns=["a", "b"]))
+            vals.append((det.drift_state, float(det._test_dist)))
+        elif name == "HDDDM":
+            from menelaus.data_drift import HDDDM
+            det = HDDDM(detect_batch=3, subsets=3)
+            det.set_reference(ref)
+            det.update(pd.DataFrame(batch, columns=["a", "b"]))
+            vals.append((det.drift_state, float(det.current_distance)))
+        else:
+            from menelaus.partitioners import KDQTreePartitioner
+            kp = KDQTreePartitioner(count_ubound=40)
+            kp.build(ref.values)
+            kp.fill(batch, "t", reset=True)
+            kp.fill(batch, "u", reset=False)
+            vals.append((tuple(kp.leaf_counts("t")), float(kp.kl_distance("build", "t")) + float(kp.kl_distance("build", "u"))))
+    (s1, d1), (s2, d2) = vals
+    if s1 != s2:
+        return 2, True, "row permutation of a %d-row batch changes %s: %r vs %r" % (rows, "the leaf counts" if name == "KDQTreePartitioner" else "the decision", s1, s2)
+    if not math.isclose(d1, d2, rel_tol=1e-9, abs_tol=1e-12):
+        return 2, True, "row permutation of a %d-row batch changes the measured divergence: %r vs %r" % (rows, d1, d2)
+    if name == "KDQTreePartitioner" and sum(s1) != rows:
+        return 2, True, "leaf counts of a %d-row fill add up to %d" % (rows, sum(s1))
+    return 2, True, None
+
+
 def check_nnps_order(scn):
     from menelaus.partitioners import NNSpacePartitioner
     seed, n1, n2, k, lattice = scn["seed"], scn["n1"], scn["n2"], scn["k"], scn.get("lattice", False)
@@ -627,7 +667,7 @@ CHECKS = {
     "lifecycle": check_lifecycle, "clean_slate": check_clean_slate, "set_reference": check_set_reference,
     "rejected_call": check_rejected_call, "containers": check_containers, "mixed_width": check_mixed_width, "agreement_only": check_agreement_only,
     "unused_args": check_unused_args, "threshold": check_threshold, "warning_threshold": check_warning_threshold,
-    "row_order": check_row_order, "nnps_order": check_nnps_order, "no_alias": check_no_alias,
+    "row_order": check_row_order, "row_order_large": check_row_order_large, "nnps_order": check_nnps_order, "no_alias": check_no_alias,
 }
 
 REPLAY = '''import sys, warnings
